@@ -1,13 +1,20 @@
 // ===== prelude/config.rs: Config (copied) and its getters =====
 //@struct src/config.rs Config
+// the default values are taken from the working tree on every run: no property pins them down
+//@const D_CACHE_ITEMS src/config.rs self\.log_cache_max_items\.unwrap_or\(([^)]*)\)
+//@const D_CACHE_CAP src/config.rs self\.log_cache_capacity\.unwrap_or\(([^)]*)\)
+//@const D_READ_BUF src/config.rs self\.read_buffer_size\.unwrap_or\(([^)]*)\)
+//@const D_MAX_RECORDS src/config.rs self\.chunk_max_records\.unwrap_or\(([^)]*)\)
+//@const D_MAX_SIZE src/config.rs self\.chunk_max_size\.unwrap_or\(([^)]*)\)
+//@const D_TRUNCATE src/config.rs self\.truncate_incomplete_record\.unwrap_or\(([^)]*)\)
 pub uninterp spec fn spec_chunk_path(dir: String, id: u64) -> String;
 impl Config {
-    pub open spec fn sp_log_cache_max_items(&self) -> usize { match self.log_cache_max_items { Some(v) => v, None => 100_000usize } }
-    pub open spec fn sp_log_cache_capacity(&self) -> usize { match self.log_cache_capacity { Some(v) => v, None => (1024 * 1024 * 1024) as usize } }
-    pub open spec fn sp_read_buffer_size(&self) -> usize { match self.read_buffer_size { Some(v) => v, None => (64 * 1024 * 1024) as usize } }
-    pub open spec fn sp_chunk_max_records(&self) -> usize { match self.chunk_max_records { Some(v) => v, None => (1024 * 1024) as usize } }
-    pub open spec fn sp_chunk_max_size(&self) -> usize { match self.chunk_max_size { Some(v) => v, None => (1024 * 1024 * 1024) as usize } }
-    pub open spec fn sp_truncate(&self) -> bool { match self.truncate_incomplete_record { Some(v) => v, None => true } }
+    pub open spec fn sp_log_cache_max_items(&self) -> usize { match self.log_cache_max_items { Some(v) => v, None => (@D_CACHE_ITEMS@) as usize } }
+    pub open spec fn sp_log_cache_capacity(&self) -> usize { match self.log_cache_capacity { Some(v) => v, None => (@D_CACHE_CAP@) as usize } }
+    pub open spec fn sp_read_buffer_size(&self) -> usize { match self.read_buffer_size { Some(v) => v, None => (@D_READ_BUF@) as usize } }
+    pub open spec fn sp_chunk_max_records(&self) -> usize { match self.chunk_max_records { Some(v) => v, None => (@D_MAX_RECORDS@) as usize } }
+    pub open spec fn sp_chunk_max_size(&self) -> usize { match self.chunk_max_size { Some(v) => v, None => (@D_MAX_SIZE@) as usize } }
+    pub open spec fn sp_truncate(&self) -> bool { match self.truncate_incomplete_record { Some(v) => v, None => @D_TRUNCATE@ } }
 //@fn src/config.rs Config::log_cache_max_items
 props: C15 C07
 ensures:
